@@ -5,7 +5,7 @@ from ..core import rule
 from ..index import AnalysisError, dotted, src, walk_no_nested, names_in
 from ..cfg import CFG
 from ..domains import check_pred, linform, Lin
-from ..util import node_calls
+from ..util import node_calls, pred_is
 from .slots import BARCODEPARSER
 
 CLS = 'BarcodeParser'
@@ -160,7 +160,7 @@ def r5(ctx):
     if not bad:
         ctx.emit('C03-R5', True, BARCODEPARSER, c, 'parse_barcode_file is only called from the constructor and the expanding pending loader', key='pending-bypass')
     init = ms['__init__']
-    post = [s for s in walk_no_nested(init) if isinstance(s, ast.If) and src(s.test) == 'hammingDistanceExpansion > 0' and any('self.expand(hammingDistanceExpansion' in src(x) for x in s.body)]
+    post = [s for s in walk_no_nested(init) if isinstance(s, ast.If) and pred_is(s.test, lambda e: e['k'] > 0, {'hammingDistanceExpansion': 'k', 'self.hammingDistanceExpansion': 'k'}) and any('self.expand(hammingDistanceExpansion' in src(x) for x in s.body)]
     ctx.emit('C03-R5', len(post) == 1, BARCODEPARSER, post[0] if post else init, 'eager loading expands every parsed alias when the distance is > 0', key='eager-expand')
     gi = ms.get('__getitem__')
     if gi is not None:
